@@ -381,8 +381,95 @@ class TracksSwitch(Contract):
         return out
 
 
+class AnnotatorComputeGhost(Contract):
+    """an annotator's compute() at the call site inside AnnotatorRegistry.compute: recorded (each is proved on its own:
+    contracts/bulkrp.py, bulkiou.py, bulkids.py + TrackCompute below)"""
+
+    qualname = f"{GA}.compute"
+
+    def apply(self, I, args, kw):
+        I.ctx.ghost.setdefault("annotator_computes", []).append((args[0], args[1] if len(args) > 1 else kw.get("feature_keys")))
+        return None
+
+
+class RegistryCompute(Contract):
+    """AnnotatorRegistry.compute(keys): every annotator's compute is called exactly once, in order, with the same keys"""
+
+    qualname = f"{AR}.compute"
+    props = ("C10",)
+
+    def run(self, I, cfg):
+        ctx = I.ctx
+        reg, anns = make_registry(ctx)
+        ctx.contracts[AnnotatorComputeGhost.qualname] = AnnotatorComputeGhost()
+        keys = None if cfg.get("keys") == "none" else SymList.fresh(ctx, "feature_keys", Key)
+        out = call_real(I, self.qualname, [reg] + ([keys] if keys is not None else []), {})
+        q = "AnnotatorRegistry.compute"
+        if out[0] != "return":
+            ctx.oblige(f"C10/{q}/no-exception", False, props=self.props, note=str(out[1]))
+            return out
+        calls = ctx.ghost.get("annotator_computes", [])
+        ok = len(calls) == len(anns) and all(c[0] is a and c[1] is keys for c, a in zip(calls, anns))
+        ctx.oblige(f"C10/{q}/ensures:every-annotator-computes-once-with-the-given-keys", z3.BoolVal(ok), props=self.props)
+        return out
+
+
+TA = "funtracks.annotators._track_annotator.TrackAnnotator"
+
+
+class AssignGhost(Contract):
+    def __init__(self, fn):
+        self.fn = fn
+        self.qualname = f"{TA}.{fn}"
+
+    def apply(self, I, args, kw):
+        I.ctx.ghost.setdefault("assigned", []).append(self.fn)
+        return None
+
+
+class TrackCompute(Contract):
+    """TrackAnnotator.compute(keys): bulk-assigns track ids iff the tracklet key is requested and active, lineage ids iff the
+    lineage key is (the two assignments themselves: contracts/bulkids.py)"""
+
+    qualname = f"{TA}.compute"
+    props = ("C10", "C04", "C05")
+
+    def run(self, I, cfg):
+        ctx = I.ctx
+        table = FeatTable.fresh(ctx, "trk")
+        ann = Instance(repo().get_class(TA), {"all_features": table, "tracklet_key": lit_key("track_id"), "lineage_key": lit_key("lineage_id")})
+        for fn in ("_assign_tracklet_ids", "_assign_lineage_ids"):
+            c = AssignGhost(fn)
+            ctx.contracts[c.qualname] = c
+        keys = None if cfg.get("keys") == "none" else SymList.fresh(ctx, "feature_keys", Key)
+        out = call_real(I, self.qualname, [ann] + ([keys] if keys is not None else []), {})
+        q = "TrackAnnotator.compute"
+        if out[0] != "return":
+            ctx.oblige(f"C10/{q}/no-exception", False, props=self.props, note=str(out[1]))
+            return out
+        done = ctx.ghost.get("assigned", [])
+        tk, lk = to_z3(lit_key("track_id"), Key), to_z3(lit_key("lineage_id"), Key)
+        active = lambda k: AND(S(table.dom, k), S(table.act, k))
+        wanted = (lambda k: active(k)) if keys is None else (lambda k: AND(active(k), in_list(keys, k)))
+        ctx.oblige(f"C10/{q}/ensures:track-ids-assigned-iff-the-tracklet-key-is-requested-and-active",
+                   z3.BoolVal(done.count("_assign_tracklet_ids") == 1) if "_assign_tracklet_ids" in done else z3.Not(wanted(tk)), props=self.props)
+        ctx.oblige(f"C10/{q}/ensures:track-ids-assigned=>requested-and-active", wanted(tk) if "_assign_tracklet_ids" in done else z3.BoolVal(True), props=self.props)
+        ctx.oblige(f"C10/{q}/ensures:lineage-ids-assigned-iff-the-lineage-key-is-requested-and-active",
+                   z3.BoolVal(done.count("_assign_lineage_ids") == 1) if "_assign_lineage_ids" in done else z3.Not(wanted(lk)), props=self.props)
+        ctx.oblige(f"C10/{q}/ensures:lineage-ids-assigned=>requested-and-active", wanted(lk) if "_assign_lineage_ids" in done else z3.BoolVal(True), props=self.props)
+        ctx.oblige(f"C10/{q}/ensures:track-ids-before-lineage-ids", z3.BoolVal(done in ([], ["_assign_tracklet_ids"], ["_assign_lineage_ids"], ["_assign_tracklet_ids", "_assign_lineage_ids"])), props=self.props)
+        return out
+
+
+def lit_key(s):
+    from pyvc.terms import lit
+    return Sym(lit(s))
+
+
 def units():
     from pyvc.verify import Unit
     return [Unit(AnnotatorFlags("activate_features"), {}), Unit(AnnotatorFlags("deactivate_features"), {}),
             Unit(RegistryFlags("activate_features"), {}), Unit(RegistryFlags("deactivate_features"), {}),
-            Unit(TracksSwitch("enable_features"), {}), Unit(TracksSwitch("disable_features"), {})]
+            Unit(TracksSwitch("enable_features"), {}), Unit(TracksSwitch("disable_features"), {}),
+            Unit(RegistryCompute(), {"keys": "list"}), Unit(RegistryCompute(), {"keys": "none"}),
+            Unit(TrackCompute(), {"keys": "list"}), Unit(TrackCompute(), {"keys": "none"})]
